@@ -8,7 +8,8 @@
    depth and the whole saved-state stack).
    This file contains nothing but the property theorems, each closed by [exact <lemma>]. *)
 From Coq Require Import ZArith List Bool.
-From Tickit Require Import RectDefs RBDefs RBSpec RBLemmas RBAbsLemmas RBInv RBProofs RBCopyDefs RBCopySpec RBCopyProofs.
+From Tickit Require Import RectDefs RBDefs RBSpec RBLemmas RBAbsLemmas RBInv RBProofs RBRestore RBCopyDefs RBCopySpec RBCopyProofs
+                           RBCopyRefine RBCopyLoop.
 Import ListNotations.
 Local Open Scope Z_scope.
 
@@ -45,23 +46,54 @@ Theorem C13_copy_span : forall (samerb : bool) (src dst : rb) line col sr lineof
 Proof. exact copy_span_ok. Qed.
 Print Assumptions C13_copy_span.
 
-(* NOT PROVED (full statements; the correspondence check carries them as testing, exhaustively
-   over every rectangle pair inside a 2x6 buffer for 9 prepared contents, plus random programs):
+(* Copying a rectangle within a buffer, no translation in force: EVERY destination cell that
+   clip and mask allow takes the content the source cell at the same offset had before the
+   call (a_copyrect is that cell-wise definition, evaluated on the OLD grid) -- whether or not
+   the rectangles overlap, in any direction, wherever the edges fall relative to runs -- with
+   the pen completed from the current pen and line segments merging; all other cells unchanged.
+   Hypotheses on the state: the span invariant; masks <= depth (ainv); Char cells hold
+   width-one code points (achar_ok).  C13_copy_reachable discharges them for every content a
+   drawing program can produce. *)
+Theorem C13_copy_full : forall s dr sr,
+  Inv s -> ainv (abs_rb s) -> achar_ok (abs_rb s) -> xl (aux s) = 0 -> xc (aux s) = 0 -> rect_in s sr ->
+  exists s', copyrect_op s dr sr = Ok s' /\ Inv s' /\ abs_rb s' = a_copyrect (abs_rb s) dr sr.
+Proof. exact copyrect_refines. Qed.
+Print Assumptions C13_copy_full.
 
-   C13_copy_full : forall s dr sr s',
-     Inv s -> ainv (abs_rb s) -> rect_in s sr -> xl (aux s) = 0 -> xc (aux s) = 0 ->
-     copyrect_op s dr sr = Ok s' -> abs_rb s' = a_copyrect (abs_rb s) dr sr.
-   C13_move_full : ... moverect_op s dr sr = Ok s' -> abs_rb s' = a_moverect (abs_rb s) dr sr.
-   C13_blit_full : forall dst src dst',
-     Inv dst -> Inv src -> ainv (abs_rb dst) -> xl (aux dst) = 0 -> xc (aux dst) = 0 ->
-     blit dst src = Ok dst' -> abs_rb dst' = a_blit (abs_rb dst) (abs_rb src).
+Theorem C13_copy_reachable : forall L C pre s v dr sr,
+  0 <= L -> 0 <= C -> run (rb_new L C) pre = Ok (s, v) ->
+  xl (aux s) = 0 -> xc (aux s) = 0 -> rect_in s sr ->
+  exists s', copyrect_op s dr sr = Ok s' /\ Inv s' /\ aux s' = aux s /\ abs_rb s' = a_copyrect (abs_rb s) dr sr.
+Proof. exact copyrect_reachable. Qed.
+Print Assumptions C13_copy_reachable.
 
-   What is missing: the loop-level composition.  Each span step is an instance of the C03
-   refinement lemmas (put_substr_ok, erase_ok, skip_ok, linecell_ok, put_char_ok inside a
-   balanced pen bracket), so its effect on the abstraction is known; what is not yet proved is
-   the bookkeeping that, at every iteration, the not-yet-visited source cells still hold their
-   original content (for copies within one line of one buffer), and hence that the composition
-   of the steps is the cell-wise copy. *)
+(* Blitting one buffer onto another overlays exactly the source's non-skipped cells. *)
+Theorem C13_blit_full : forall dst src,
+  Inv dst -> Inv src -> ainv (abs_rb dst) -> achar_ok (abs_rb src) -> xl (aux dst) = 0 -> xc (aux dst) = 0 ->
+  exists dst', blit dst src = Ok dst' /\ Inv dst' /\ abs_rb dst' = a_blit (abs_rb dst) (abs_rb src).
+Proof. exact blit_refines. Qed.
+Print Assumptions C13_blit_full.
+
+Theorem C13_blit_reachable : forall L C pre dst v L' C' pre' src v',
+  0 <= L -> 0 <= C -> run (rb_new L C) pre = Ok (dst, v) ->
+  0 <= L' -> 0 <= C' -> run (rb_new L' C') pre' = Ok (src, v') ->
+  xl (aux dst) = 0 -> xc (aux dst) = 0 ->
+  exists dst', blit dst src = Ok dst' /\ Inv dst' /\ aux dst' = aux dst /\ abs_rb dst' = a_blit (abs_rb dst) (abs_rb src).
+Proof. exact blit_reachable. Qed.
+Print Assumptions C13_blit_reachable.
+
+(* NOT PROVED (full statement; carried by the correspondence check as testing, exhaustively over
+   every rectangle pair inside a 2x6 buffer for 9 prepared contents, plus random programs):
+
+   C13_move_full : forall s dr sr s',
+     Inv s -> ainv (abs_rb s) -> achar_ok (abs_rb s) -> xl (aux s) = 0 -> xc (aux s) = 0 -> rect_in s sr ->
+     moverect_op s dr sr = Ok s' -> abs_rb s' = a_moverect (abs_rb s) dr sr.
+
+   Its copy half is C13_copy_full.  What is missing is the vacated area: that the rectangles the
+   model of rectset.c (add, then subtract of the destination-positioned rectangle) returns cover
+   exactly source minus destination -- a statement about tickit_rectset_add/_subtract, which is
+   property C05's subject -- and that the model returns at all (C13_move_aux_unchanged_partial
+   is conditional on that). *)
 
 Example C13_nonvacuous :
   exists s v, run (rb_new 2 6) [OTextAt 0 0 [65; 66; 67; 68; 69; 70]; OCharAt 0 2 120; OSave] = Ok (s, v) /\
